@@ -95,9 +95,12 @@ public:
    */
   template<class T> static T logsum(T lnx, T lny)
   {
-    return (lny < lnx) ?
-           lnx + std::log(1. + exp(lny - lnx)) :
-           lny + std::log(1. + exp(lnx - lny));
+    if (lny < lnx)
+      return lnx + std::log(1. + exp(lny - lnx));
+    if (lnx < lny)
+      return lny + std::log(1. + exp(lnx - lny));
+    // Equal arguments, including two log-zeros: lnx - lny would be NaN for infinities.
+    return lnx + std::log(2.);
   }
 
   /**************************************************************************/
